@@ -381,6 +381,27 @@ impl SubCheck for Blanket {
 				obs.check(r.is_err(), "blanket/batch-entry-failing-value-not-reported", || format!("{:?}", bb.iter().map(|(m, p)| (m.to_string(), p.map(|p| p.get().to_string()))).collect::<Vec<_>>()));
 				let names: Vec<String> = bb.iter().map(|(m, _)| m.to_string()).collect();
 				obs.check(names == ["ok"], "blanket/batch-entry-added-by-failed-insert", || format!("{names:?}"));
+				// rpc_params! is documented to panic when a parameter cannot be serialised: with a failing value in any
+				// position it must not hand back params (they would lack a value that was passed)
+				macro_rules! macro_must_refuse {
+					($what:expr, $($p:expr),+) => {{
+						let r = std::panic::catch_unwind(std::panic::AssertUnwindSafe(|| {
+							jsonrpsee_core::rpc_params![$($p),+].to_rpc_params().map(|x| x.map(|r| r.get().to_string()))
+						}));
+						if let Ok(x) = r {
+							obs.fail(format!("blanket/rpc_params-failing-value-{}-not-reported", $what), format!("{x:?}"));
+						}
+					}};
+				}
+				macro_must_refuse!("only", bad());
+				macro_must_refuse!("first-of-2", bad(), v[0].clone());
+				macro_must_refuse!("last-of-2", v[0].clone(), bad());
+				macro_must_refuse!("first-of-3", bad(), v[0].clone(), v[1].clone());
+				macro_must_refuse!("middle-of-3", v[0].clone(), bad(), v[1].clone());
+				macro_must_refuse!("last-of-3", v[0].clone(), v[1].clone(), bad());
+				macro_must_refuse!("second-of-4", v[0].clone(), bad(), v[1].clone(), v[2].clone());
+				macro_must_refuse!("two-of-4", bad(), v[0].clone(), bad(), v[1].clone());
+				crate::panics::clear_local();
 			}
 			// 128-bit integers through every blanket impl and through the builder: the same digits come out
 			if case.wide.len() == 4 {
